@@ -259,6 +259,9 @@ func absParams(p *consensus.Parameters) paramsAbs {
 	if err := pb.Unmarshal(p.Meta); err != nil {
 		return a
 	}
+	if pb.Block == nil || pb.Evidence == nil || pb.Validator == nil || pb.Version == nil {
+		return a // rejected as malformed (core.go:653-656)
+	}
 	a.ok = true
 	cp := cmttypes.ConsensusParamsFromProto(pb)
 	a.valid = cp.ValidateBasic() == nil
@@ -1059,7 +1062,6 @@ func mainBind(seed uint64, rounds int, out, replay string) {
 	}
 	seen := map[string]bool{}
 	freeSeen := map[string]bool{}
-	paramsPanicSeen := false
 	for _, c := range cases {
 		res := runB(c)
 		key, _ := json.Marshal(c)
@@ -1069,29 +1071,24 @@ func mainBind(seed uint64, rounds int, out, replay string) {
 		seen[string(key)] = true
 		sum.Evaluations++
 		sum.Count("alteration", c.Kind+"/"+c.Alter)
-		sum.Count("verdict", c.Kind+"/"+res.verdict)
+		if res.panicked == "" {
+			sum.Count("verdict", c.Kind+"/"+res.verdict)
+		}
 		if c.Kind == "block" && c.Alter == "height+1" {
 			sum.Sample(map[string]any{"kind": c.Kind, "alter": c.Alter, "verdict": res.verdict}, 2)
 		}
 		if res.panicked != "" {
 			sum.Count("verdict", c.Kind+"/PANIC")
-			if c.Kind == "params" && strings.Contains(res.panicked, "types/params.go") {
-				// shrink: the empty Meta is the smallest such response
+			if c.Kind == "params" && c.Params != nil {
+				// shrink: the empty Meta is the smallest response of this kind
 				small := c
 				p := *c.Params
 				p.Meta = []byte{}
 				small.Params = &p
 				small.Honest = nil
-				if r2 := runB(small); r2.panicked != "" && strings.Contains(r2.panicked, "types/params.go") {
+				if r2 := runB(small); r2.panicked != "" {
 					c, res = small, r2
 				}
-				if !paramsPanicSeen {
-					paramsPanicSeen = true
-					sum.Findings = append(sum.Findings, coqout.Finding{Key: "C19:verifyParameters-panics-on-omitted-submessage",
-						What: "verifyParameters does not reject but PANICS (nil pointer dereference in cmttypes.ConsensusParamsFromProto, core.go:653) on a provider response whose params.Meta omits a protobuf sub-message: " + res.panicked,
-						Replay: map[string]any{"case": c}})
-				}
-				continue
 			}
 			sum.Violations = append(sum.Violations, map[string]any{"what": "implementation panicked: " + res.panicked, "case": c})
 			continue
